@@ -526,6 +526,12 @@ func importTar(in io.ReaderAt) (*tarFile, error) {
 }
 
 func moveRec(name string, in *tarFile, out *tarFile, picked map[string]struct{}) error {
+	return moveRecFollowing(name, in, out, picked, make(map[string]struct{}))
+}
+
+// moveRecFollowing is moveRec with the set of hardlinks whose targets are currently being
+// moved, which detects a cyclic chain of hardlinks in the (untrusted) input tar.
+func moveRecFollowing(name string, in *tarFile, out *tarFile, picked map[string]struct{}, following map[string]struct{}) error {
 	name = cleanEntryName(name)
 	if name == "" { // root directory. stop recursion.
 		if e, ok := in.get(name); ok {
@@ -547,13 +553,18 @@ func moveRec(name string, in *tarFile, out *tarFile, picked map[string]struct{})
 	}
 
 	parent, _ := path.Split(strings.TrimSuffix(name, "/"))
-	if err := moveParentRec(parent, in, out, picked); err != nil {
+	if err := moveParentRec(parent, in, out, picked, following); err != nil {
 		return err
 	}
 	if e, ok := in.get(name); ok && e.header.Typeflag == tar.TypeLink {
-		if err := moveRec(e.header.Linkname, in, out, picked); err != nil {
+		if _, ok := following[name]; ok {
+			return fmt.Errorf("file: %q: cyclic hardlink", name)
+		}
+		following[name] = struct{}{}
+		if err := moveRecFollowing(e.header.Linkname, in, out, picked, following); err != nil {
 			return err
 		}
+		delete(following, name)
 	}
 	if _, done := picked[name]; done {
 		return nil
@@ -568,17 +579,17 @@ func moveRec(name string, in *tarFile, out *tarFile, picked map[string]struct{})
 // moveParentRec moves the parent directories of an entry picked by moveRec.
 // A parent directory that has no entry in the tar (an implicit directory) isn't
 // an error: it is skipped and its own parents are still moved.
-func moveParentRec(name string, in *tarFile, out *tarFile, picked map[string]struct{}) error {
+func moveParentRec(name string, in *tarFile, out *tarFile, picked map[string]struct{}, following map[string]struct{}) error {
 	if cleaned := cleanEntryName(name); cleaned != "" {
 		_, okIn := in.get(cleaned)
 		_, okOut := out.get(cleaned)
 		_, okPicked := picked[cleaned]
 		if !okIn && !okOut && !okPicked {
 			parent, _ := path.Split(strings.TrimSuffix(cleaned, "/"))
-			return moveParentRec(parent, in, out, picked)
+			return moveParentRec(parent, in, out, picked, following)
 		}
 	}
-	return moveRec(name, in, out, picked)
+	return moveRecFollowing(name, in, out, picked, following)
 }
 
 type entry struct {
